@@ -414,6 +414,10 @@ class Check:
             with open(os.path.join(outdir, "all-violations.ndjson"), "w") as f:
                 for rec in new[:20000]:
                     f.write(json.dumps({"rule": rec["rule"], "event": rec["event"]}) + "\n")
+        if self.incon:
+            with open(os.path.join(outdir, "inconclusive.ndjson"), "w") as f:
+                for rec in self.incon[:2000]:
+                    f.write(json.dumps({"rule": rec["rule"], "event": rec["event"]}) + "\n")
         wall = time.time() - self.t0
         cov = {
             "states": self.states, "transitions": self.transitions,
